@@ -278,17 +278,22 @@ func c19ExecPass(c c19Case, afterScribble bool) (keys []string, detail, class st
 			if toKey == "" {
 				continue
 			}
-			r := idp.DefaultResponse(1)
-			uniq(&r, "c19")
-			r.Assertions[0].Sign = idp.SignSpec{Key: "K1"}
-			r.Assertions[0].Encrypt = &idp.EncSpec{DataAlg: m, ToKey: toKey}
-			sp3, _, _ := c19SP(c19Case{Keys: c.Keys, Str: make([]int, 3), EncKey: c.EncKey, Custom: c.Custom})
-			sp3.IDPCertificateStore = world.Store("K1")
-			resp, cr := validateResponse(sp3, idp.RenderResponse(r))
-			if !cr.Accepted() || len(resp.Assertions) != 1 {
-				bad("cannot-decrypt-what-is-encrypted-to-the-published-key/keys="+k.String(), "method %s: %s %s", m, cr.Err.Text, cr.Panic)
-			} else if oracle.FromAssertion(&resp.Assertions[0]).NameID != r.Assertions[0].NameID {
-				bad("decrypted-data-differs", "")
+			// every length of the assertion modulo the cipher's block size
+			for res := 1; res <= 16; res++ {
+				r := idp.DefaultResponse(1)
+				uniq(&r, "c19")
+				r.Assertions[0].Sign = idp.SignSpec{Key: "K1"}
+				r.Assertions[0].Encrypt = &idp.EncSpec{DataAlg: m, ToKey: toKey, PadResidue: res}
+				sp3, _, _ := c19SP(c19Case{Keys: c.Keys, Str: make([]int, 3), EncKey: c.EncKey, Custom: c.Custom})
+				sp3.IDPCertificateStore = world.Store("K1")
+				resp, cr := validateResponse(sp3, idp.RenderResponse(r))
+				if !cr.Accepted() || len(resp.Assertions) != 1 {
+					bad("cannot-decrypt-what-is-encrypted-to-the-published-key/keys="+k.String(), "method %s, plaintext length = %d mod 16: %s %s", m, res-1, cr.Err.Text, cr.Panic)
+					break
+				} else if oracle.FromAssertion(&resp.Assertions[0]).NameID != r.Assertions[0].NameID {
+					bad("decrypted-data-differs", "")
+					break
+				}
 			}
 		}
 		if len(methods) != 5 {
@@ -390,7 +395,7 @@ func c19Replay(raw json.RawMessage) ([]string, string) {
 }
 
 func c19Run(r *mc.Run) {
-	r.Rule = "full product key configuration(12 with an encryption key) x SignAuthnRequests x SkipSignatureValidation x {Metadata, MetadataWithSLO(h) for h in -5,0,1,24,168,8760,10^6} x clock(5), with signing/decryption cross-checks (a signed AuthnRequest of the same SP verifies with the published signing certificate; an assertion encrypted to the published encryption certificate under each listed method is decrypted by the same SP) on the key-configuration dimension (field key stores as dsig.TLSCertKeyStore and as a key store of a custom type; SP encryption keys of RSA-2048, and per key configuration RSA-3072 and RSA-4096), plus <=1 (quick) / <=2 (thorough) special strings among issuer / ACS URL / SLO URL; each case judged on a fresh instance and again after a caller wrote over every field, slice element and map entry of earlier results; XML marshal is parsed by encoding/xml and must unmarshal back to equal values. non-trivial = metadata was produced and compared; distinct = distinct case"
+	r.Rule = "full product key configuration(12 with an encryption key) x SignAuthnRequests x SkipSignatureValidation x {Metadata, MetadataWithSLO(h) for h in -5,0,1,24,168,8760,10^6} x clock(5), with signing/decryption cross-checks (a signed AuthnRequest of the same SP verifies with the published signing certificate; an assertion encrypted to the published encryption certificate under each listed method, at every plaintext length modulo 16, is decrypted by the same SP) on the key-configuration dimension (field key stores as dsig.TLSCertKeyStore and as a key store of a custom type; SP encryption keys of RSA-2048, and per key configuration RSA-3072 and RSA-4096), plus <=1 (quick) / <=2 (thorough) special strings among issuer / ACS URL / SLO URL; each case judged on a fresh instance and again after a caller wrote over every field, slice element and map entry of earlier results; XML marshal is parsed by encoding/xml and must unmarshal back to equal values. non-trivial = metadata was produced and compared; distinct = distinct case"
 	var cases []c19Case
 	nk := len(c19Keys())
 	mc.Enumerate(-1, r.Expired, func(ch *mc.Chooser) {
